@@ -52,7 +52,7 @@ def run(tier):
             why = ev.get("_reason", "?")
             if why == "recorder-civil-fields":
                 raise core.ToolError("the recorder's civil fields do not satisfy Calendar!ValidCivil: %r" % ev["inst"])
-            m = dict(key="C15:" + why, line=i, trace=path, kind=ev["k"])
+            m = dict(key=("X:" + why[2:]) if why.startswith("X-") else ("C15:" + why), line=i, trace=path, kind=ev["k"])
             if ev["k"] == "ctx":
                 m.update(schema=ev["sch"], observed={f: (x["kind"], core.cp_text(x["s"])) for f, x in ev.items() if isinstance(x, dict) and "kind" in x},
                          expected_scalars=core.cp_text(ev["want_scalars"]))
